@@ -11,6 +11,7 @@ import ShapeVerif.Props.C03
 import ShapeVerif.Props.C07
 import ShapeVerif.Props.C08
 import ShapeVerif.Props.C09
+import ShapeVerif.Props.C06
 namespace ShapeVerif
 open Shape
 
@@ -206,5 +207,13 @@ theorem converge_text (ps : List (List Char × Doc)) (h : ∀ p ∈ ps, Reads p.
   · intro hk
     have := (fromSources_reads (ps ++ List.replicate (k + 1) p) (hall (k + 1)) sk).2 (by rw [e2]; exact h3 hk)
     rwa [e1] at this
+
+/-- **C06 on texts**: for a JSON text whose document has no repeated member names, the shape
+`from_str` infers is the shape the value path infers from the text's value (`d.toSVal`: members sorted
+by name — the model of what `serde_json::from_str::<Value>` returns for the text, compared with the
+real `serde_json` on every generated text) -/
+theorem paths_agree_text {t : List Char} {d : Doc} (h : Reads t d) (hnd : d.noDupKeys = true) {s : Shape}
+    (hs : fromStr t = .ok s) : inferSVal d.toSVal = s :=
+  paths_agree d s hnd (inferDoc_of_reads h hs)
 
 end ShapeVerif
